@@ -179,6 +179,11 @@ def check_joint_plan(ctx, W, S, members, agents, d, p, ops):
     steps_ref = [S]
     group = members
     for step in range(1 + ops.draw(3)):
+        if ops.chance(1, 4):
+            # a step in which every agent idles: one trajectory step, state unchanged
+            plan.append([None] * len(agents))
+            steps_ref.append(cur)
+            ctx.probes["nop_only_step_in_plan"] += 1
         if step:
             group = pick_members(ctx, W, cur, ops, 1 + ops.draw(3))
             if not group:
